@@ -24,7 +24,7 @@ RULE = ("random programs of 5-40 events over objects drawn from {Operator, SelfA
         "extracted with at(t) from evolutions and evolution superoperators are tracked next to their source; the repository's own unit tests run in-process under "
         "the frame-level leak detector (every library frame must return with the basis stack it was entered with); 26 library computations "
         "(propagation with seven kinds of generator, tensor actions, evolution superoperator, Redfield-family builders, rates, thermal states, "
-        "dipole operator) made inside a context on objects made outside vs the same made outside; protected context operators entered from other levels. "
+        "dipole operator) made inside a context on objects made outside vs the same made outside; protected context operators entered from other levels, incl. a directed class with the operator stored 0..k levels behind the current basis at depth 2-4 under real and complex outer operators. "
         "distinct = (event-kind sequence, nesting profile, exception class); non-trivial iff at least one object was actually transformed (read inside a "
         "context whose transformation is not the identity) before the final check.")
 ASSUMPTIONS = ["the transformation matrix the library puts on its stack is *validated* (orthogonal; diagonalises the context operator with ascending eigenvalues) "
